@@ -84,8 +84,13 @@ class Gen:
     def feat(self, f):
         self.used_feats[f] = self.used_feats.get(f, 0) + 1
 
+    F2008_KINDS = {"allocate_mold", "open_newunit", "error_stop", "block_construct", "end_block", "critical",
+                   "end_critical", "do_concurrent", "contiguous", "codimension", "submodule", "end_submodule"}
+
     def emit(self, text, **kw):
         s = Stmt(text, **kw)
+        if s.kind in self.F2008_KINDS:
+            s.feats.add("f2008")
         s.depth = self.depth
         s.unit = self.unit_kind
         self.out.append(s)
@@ -274,6 +279,8 @@ class Gen:
         if k == 3:
             return "read(unit = 5, fmt = *) %s" % ", ".join(self.ch([self.rvar(), self.ivar()])
                                                             for _ in range(self.r.randrange(1, 3))), "read"
+        if k == 4 and self.std == "f2008" and self.p(0.3):
+            return "open(newunit = %s, file = 'data.txt')" % self.ivar(), "open_newunit"
         if k == 4:
             return ("open(unit = %s, file = %s, status = 'old', iostat = %s)"
                     % (self.int_lit(), self.ch(["'data.txt'", "\"in put.dat\"", "sTxt"]), self.ivar())), "open"
@@ -300,6 +307,8 @@ class Gen:
             return "if (%s) %s" % (self.lexpr(1), self.assign()), "if_stmt"
         if k == 14:
             return "%s => %s" % (self.ch(NAMES_PTR), self.ch(NAMES_REAL)), "ptr_assign"
+        if k == 15 and self.std == "f2008" and self.p(0.3):
+            return "allocate(dynA, mold = aVec)", "allocate_mold"
         if k == 15:
             return "allocate(%s(%s), stat = %s)" % ("dynA", self.iexpr(1), self.ivar()), "allocate"
         if k == 16:
@@ -394,6 +403,9 @@ class Gen:
             self.depth -= 1
         self.emit("end if%s" % ((" " + nm) if nm else ""), role="close", kind="end_if", cid=c)
 
+    def opt_comma(self):
+        return "," if self.p(0.25) else ""
+
     def loop_ctl(self):
         v = self.ch(["iCnt", "jIdx", "kk"])
         s = "%s = %s, %s" % (v, self.ch(["1", "nMax", self.iexpr(1)]), self.ch(["nMax", "10", self.iexpr(1)]))
@@ -404,7 +416,7 @@ class Gen:
     def do_block(self, b):
         c = self.newcid()
         nm = self.cname(["loopA", "loopB"])
-        self.emit("do %s" % self.loop_ctl(), name=nm, role="open", kind="do_block", cid=c,
+        self.emit("do%s %s" % (self.opt_comma(), self.loop_ctl()), name=nm, role="open", kind="do_block", cid=c,
                   label=self.newlabel() if self.p(0.2) else None)
         self.loop_names.append(nm)
         self.depth += 1
@@ -415,7 +427,7 @@ class Gen:
 
     def do_while(self, b):
         c = self.newcid()
-        self.emit("do while (%s)" % self.lexpr(1), role="open", kind="do_while", cid=c)
+        self.emit("do%s while (%s)" % (self.opt_comma(), self.lexpr(1)), role="open", kind="do_while", cid=c)
         self.loop_names.append(None)
         self.depth += 1
         self.body(self.r.randrange(1, 3), b)
@@ -427,7 +439,7 @@ class Gen:
         c = self.newcid()
         lab = self.newlabel()
         nm = self.cname(["loopA"])
-        self.emit("do %d %s" % (lab, self.loop_ctl()), name=nm, role="open", kind="do_label", cid=c)
+        self.emit("do %d%s %s" % (lab, self.opt_comma(), self.loop_ctl()), name=nm, role="open", kind="do_label", cid=c)
         self.loop_names.append(nm)
         self.depth += 1
         self.body(self.r.randrange(1, 3), b)
@@ -587,6 +599,10 @@ class Gen:
             self.emit("real :: fldB(3)", kind="component")
             if self.p(0.3):
                 self.emit("integer, pointer :: nxt => null()", kind="component")
+            if self.std == "f2008" and self.p(0.25):
+                self.emit("real, contiguous, pointer :: cmpC(:)", kind="component", feats=("f2008",))
+            if self.std == "f2008" and self.p(0.15):
+                self.emit("integer, allocatable, codimension[:] :: cmpD", kind="component", feats=("f2008",))
             self.depth -= 1
             self.emit("end type typPoint", role="close", kind="end_type", cid=c)
         else:
